@@ -31,7 +31,7 @@ import (
 
 func TestMain(m *testing.M) {
 	harness.Describe(
-		"programs from the full grammar the embedded parser accepts (lib/jqgen Full mode: every binary operator and precedence level incl. // ?// and the non-associative ones, unary + and -, postfix ? and ??, try with and without catch directly under operators, if without else, reduce/foreach/label/break, nested defs with closure and $ parameters, as-binds with array/object destructuring and ?// alternatives, object construction with identifier/keyword/string/interpolated/computed/$variable keys, value pipes and trailing commas, index/slice/iterate suffix chains, string interpolation and @format strings, module/import/include directives with constant metadata, $__loc__, module-qualified names, fq literal extensions: `raw strings`, 0x/0o/0b literals with digit separators; rendered with random redundant parentheses, dropped parentheses, odd whitespace and comments). Programs the parser rejects are counted and skipped. Non-trivial: the parsed AST has >= 2 different binary operators, or a bind / def / try / reduce / foreach / label below a binary operator. distinct = hash of program text (+ wrapper configuration for the rewrite test).",
+		"programs from the full grammar the embedded parser accepts (lib/jqgen Full mode: every binary operator and precedence level incl. // ?// and the non-associative ones, unary + and -, postfix ? and ??, try with and without catch directly under operators, if without else, reduce/foreach/label/break, nested defs with closure and $ parameters, as-binds with array/object destructuring and ?// alternatives, object construction with identifier/keyword/string/interpolated/computed/$variable keys, value pipes and trailing commas, index/slice/iterate suffix chains, string interpolation and @format strings, module/import/include directives with constant metadata, $__loc__, module-qualified names, fq literal extensions: `raw strings`, 0x/0o/0b literals with digit separators; rendered with random redundant parentheses, dropped parentheses, odd whitespace and comments incl. CR / CR LF line ends and backslash-continued comments, and with string literals (plain, key, interpolated, @format, raw) that spell CR LF, CR, LF, TAB, C0 controls, NEL, U+2028/2029 and non-BMP characters raw instead of escaped). Programs the parser rejects are counted and skipped. Non-trivial: the parsed AST has >= 2 different binary operators, or a bind / def / try / reduce / foreach / label below a binary operator. distinct = hash of program text (+ wrapper configuration for the rewrite test).",
 		"slurp family (TestPipeLast): Q = P | FINAL with FINAL in repl, repl({}), repl({compact: true}), slurp(\"v\"), help and P a generated right spine of 1-4 segments (t as $x |, destructuring and ?// binds, def f: ..;, parenthesised and nested pipes, unparenthesised programs) ending in a term, a parenthesised or an open generated program: when FINAL is at the end of the spine, _query_pipe_last must return its call, _query_transform_pipe_last([.]) must be (text, tree or evaluation) the literal P | [.], and _eval_query_rewrite with the REPL's slurp table must give SLURPFN({slurp, slurp_args, orig, rewrite}) whose .rewrite is the literal .[] | try (P | .) catch error; non-trivial there: the spine has a bind, a def, a nested pipe or >= 3 segments. TestReplSeeds drives 8 real `fq -i` sessions with a scripted readline (bind | ... | repl, slurp(\"v\") then $v). Generated P never defines repl/slurp/help (that is the listed finding)",
 		"oracle 1 compares ASTs as fq's own JSON form; parenthesis nodes (TermTypeQuery without suffix) are removed on both sides, so only grouping that changes the tree counts",
 		"oracle 2 and the semantic part of oracle 3 run on the reference engine with debug/stderr defined as pass-through; programs with directives or names only the full grammar has ($__loc__, module-qualified names) usually do not compile there and then only the syntactic oracles apply",
@@ -528,6 +528,17 @@ func sameMeaning(textA, textB string, inputs []any) (ok bool, evaluated bool, ms
 	return true, evaluated, ""
 }
 
+// textLabels: how the program text spells its string literals and white space.
+func textLabels(p *jqgen.Prog) []string {
+	var ls []string
+	for _, f := range []string{"raw-crlf-in-string", "raw-cr-in-string", "raw-lf-in-string", "raw-control-in-string", "raw-unicode-in-string", "raw-string-literal", "cr-whitespace"} {
+		if p.Has(f) {
+			ls = append(ls, "text:"+f)
+		}
+	}
+	return ls
+}
+
 // ---------------------------------------------------------------------------
 // oracle 1 + 2
 
@@ -636,6 +647,14 @@ func judgeRoundTrip(p *jqgen.Prog, r map[string]any, inputs []any) (sig, msg str
 	nt = st.nonTrivial()
 	if p.Directives {
 		labels = append(labels, "directives")
+	}
+	labels = append(labels, textLabels(p)...)
+	// the AST fq works on must be the AST the parser gives for this very text (string
+	// constants included: the text may spell characters raw that the printer escapes)
+	if q, err := gojq.Parse(p.Text); err == nil {
+		if pa, err := astJSON(q); err == nil && !reflect.DeepEqual(a, pa) {
+			return "fq-ast-differs-from-parser-ast", fmt.Sprintf("_query_fromstring gives another AST than the parser gives for the same text\n text:   %q\n fq:     %s\n parser: %s", p.Text, trunc(show(a), 1200), trunc(show(pa), 1200)), labels, nt
+		}
 	}
 	if serr, ok := r["serr"]; ok {
 		return "query-tostring-fails", fmt.Sprintf("_query_tostring fails on the AST of the program: %s", trunc(show(serr), 300)), labels, nt
@@ -912,6 +931,7 @@ func judgeRewrite(rc rwCase, r map[string]any, inputs []any) (sig, msg string, l
 	if rc.prog.Directives {
 		labels = append(labels, "directives")
 	}
+	labels = append(labels, textLabels(rc.prog)...)
 	if e, ok := r["err"]; ok {
 		return attributeRewrite(rc, "rewrite-fails"), fmt.Sprintf("_eval_query_rewrite raises an error: %s", trunc(show(e), 400)), labels, nt
 	}
